@@ -153,6 +153,19 @@ def areasProtoclusterNumbers (cross : Bool) (L : Int) (enum : List Proto) (candi
 /-- `cluster_types = sorted(ruleset.get_rule_names())` (`get_rule_names` returns a set) -/
 def enabledTypes (ruleNames : List Int) : List Int := sortedNames ruleNames
 
+/-! ### `hmm_detection.get_ruleset`: `--hmmdetection-limit-to-rule-names / -categories` -/
+
+/-- `rules = filter(name in name_subset, rules)` then `filter(category in category_subset, rules)`;
+    a rule is (name, category); the two option values arrive as SETS (`set(options.…)`), an empty set
+    means "no restriction".  The rules keep the order of the rule files. -/
+def restrictRules (rules : List (Int × Int)) (nameSubset categorySubset : List Int) : List (Int × Int) :=
+  let byName := if nameSubset.isEmpty then rules else rules.filter fun r => nameSubset.contains r.1
+  if categorySubset.isEmpty then byName else byName.filter fun r => categorySubset.contains r.2
+
+/-- `run_on_record`: `sorted(ruleset.get_rule_names())` of the restricted ruleset -/
+def enabledTypesOf (rules : List (Int × Int)) (nameSubset categorySubset : List Int) : List Int :=
+  enabledTypes ((restrictRules rules nameSubset categorySubset).map (·.1))
+
 /-! ### `filter_results`: the best hit of each overlap group (D55) -/
 
 /-- `group = sorted(unordered_group, key=position)`, then the first maximum of the bitscore.
